@@ -724,7 +724,7 @@ def prop_feature(rt, prefer_compound=False):
     """Feature of a propositional input of the conj / disj normalisers (computed from the term).  For sort_conj /
     sort_disj (which treat non-literal members specially) compound members take precedence."""
     s = repr(rt)
-    if "'equals'" in s:
+    if "'equals'" in s and not prefer_compound:
         return 'with-iff'
     h, args = L.r_head_args(rt)
     op = h[1] if h[0] == 'const' and h[1] in ('conj', 'disj') and len(args) == 2 else None
